@@ -318,8 +318,12 @@ fn exec_op(ctx: &Arc<Ctx>, op: &Op) {
             cur_pop();
             let s = match r.map_err(|b| *b) {
                 Ok(()) => format!("ret send {id} ok"),
-                Err(MessagingErr::SendErr(m)) if ser_id(&m) == Some(id) => format!("ret send {id} sendErr"),
-                Err(MessagingErr::SendErr(m)) => format!("ret send {id} sendErrWrongMessage({:?})", ser_id(&m)),
+                // the id of the message that came back inside the error (`sendErr(<back>)`); the driver
+                // compares it with the model's `Res.sendErr back` and the oracle with the send's own id
+                Err(MessagingErr::SendErr(m)) => match ser_id(&m) {
+                    Some(back) => format!("ret send {id} sendErr({back})"),
+                    None => format!("ret send {id} sendErr(?)"),
+                },
                 Err(MessagingErr::InvalidActorType) => format!("ret send {id} invalidType"),
                 Err(MessagingErr::ChannelClosed) => format!("ret send {id} channelClosed"),
             };
@@ -341,8 +345,7 @@ fn exec_op(ctx: &Arc<Ctx>, op: &Op) {
             cur_pop();
             let s = match r {
                 Ok(()) => format!("ret send {id} ok"),
-                Err(MessagingErr::SendErr(m)) if m.id == id => format!("ret send {id} sendErr"),
-                Err(MessagingErr::SendErr(m)) => format!("ret send {id} sendErrWrongMessage({})", m.id),
+                Err(MessagingErr::SendErr(m)) => format!("ret send {id} sendErr({})", m.id),
                 Err(MessagingErr::InvalidActorType) => format!("ret send {id} invalidType"),
                 Err(MessagingErr::ChannelClosed) => format!("ret send {id} channelClosed"),
             };
@@ -400,8 +403,7 @@ impl Actor for Target {
             let t0 = self.sh.tick.fetch_add(1, Ordering::SeqCst);
             let r = match myself.send_message(Msg { id, nested: Vec::new(), box_fails: false, resend: false }) {
                 Ok(()) => "ok".to_string(),
-                Err(MessagingErr::SendErr(b)) if b.id == id => "sendErr".to_string(),
-                Err(MessagingErr::SendErr(b)) => format!("sendErrWrongMessage({})", b.id),
+                Err(MessagingErr::SendErr(b)) => format!("sendErr({})", b.id),
                 Err(MessagingErr::InvalidActorType) => "invalidType".to_string(),
                 Err(MessagingErr::ChannelClosed) => "channelClosed".to_string(),
             };
@@ -908,8 +910,7 @@ fn stress_case(env: &mut Env, srt: &tokio::runtime::Runtime, rng: &mut Rng, idx:
                 let t1 = sh.tick.fetch_add(1, Ordering::SeqCst);
                 let r = match r {
                     Ok(()) => "ok".to_string(),
-                    Err(MessagingErr::SendErr(b)) if b.id == id => "sendErr".to_string(),
-                    Err(MessagingErr::SendErr(b)) => format!("sendErrWrongMessage({})", b.id),
+                    Err(MessagingErr::SendErr(b)) => format!("sendErr({})", b.id),
                     Err(MessagingErr::InvalidActorType) => "invalidType".to_string(),
                     Err(MessagingErr::ChannelClosed) => "channelClosed".to_string(),
                 };
